@@ -124,6 +124,8 @@ def check_stack(ctx, case_seed):
     else:
         ind = '    '
         lines.append('class A(object):')
+        if rnd.random() < 0.4:
+            lines.append(ind + 'def __bool__(self): return False      # instances are falsy')
         if value_eq:
             # instances that compare (and hash) equal: anything keyed by the instance instead of its
             # identity hands one instance's bound wrapper to another
